@@ -2,32 +2,32 @@
 From NG Require Import Common.Tactics Tokens.Model Tokens.Inv Tokens.OpProofs Node.Gov Node.GovProofs Node.Restart Node.Witness.
 Open Scope Z_scope.
 
-Lemma cache_coherent cfg : cfg_wf cfg -> fix_block_dirty cfg = true -> fix_gpv_drop cfg = true ->
+Lemma cache_coherent cfg : cfg_wf cfg -> fix_block_dirty cfg = true -> fix_gpv_drop cfg = true -> fix_whitelist cfg = true ->
   0 < csize cfg -> forall bs, blocks_ok cfg bs -> Coh cfg (reach cfg bs).
-Proof. intros CW F7 F23 CS bs OK. exact (proj1 (cache_coherent_reach cfg CW F7 F23 CS bs OK)). Qed.
+Proof. intros CW F7 F23 F47 CS bs OK. exact (proj1 (cache_coherent_reach cfg CW F7 F23 F47 CS bs OK)). Qed.
 
-Lemma restart_transparent_partial cfg : cfg_wf cfg -> fix_block_dirty cfg = true -> fix_gpv_drop cfg = true ->
+Lemma restart_transparent_partial cfg : cfg_wf cfg -> fix_block_dirty cfg = true -> fix_gpv_drop cfg = true -> fix_whitelist cfg = true ->
   0 < csize cfg -> forall bs, blocks_ok cfg bs ->
   obs cfg (reinit cfg (reach cfg bs)) = obs cfg (reach cfg bs)
   /\ sto (reinit cfg (reach cfg bs)) = sto (reach cfg bs)
   /\ Coh cfg (reinit cfg (reach cfg bs)).
 Proof.
-  intros CW F7 F23 CS bs OK.
-  pose proof (cache_coherent cfg CW F7 F23 CS bs OK) as C.
+  intros CW F7 F23 F47 CS bs OK.
+  pose proof (cache_coherent cfg CW F7 F23 F47 CS bs OK) as C.
   exact (conj (coherent_obs cfg _ C) (conj (reinit_sto cfg _) (reinit_coh cfg CS _ C))).
 Qed.
 
-Lemma restart_transparent_full cfg : cfg_wf cfg -> fix_block_dirty cfg = true -> fix_gpv_drop cfg = true ->
+Lemma restart_transparent_full cfg : cfg_wf cfg -> fix_block_dirty cfg = true -> fix_gpv_drop cfg = true -> fix_whitelist cfg = true ->
   0 < csize cfg -> forall bs bs', blocks_ok cfg bs -> blocks_ok cfg bs' ->
   sto (fold_left (step cfg) bs' (reinit cfg (reach cfg bs))) = sto (fold_left (step cfg) bs' (reach cfg bs))
   /\ obs cfg (fold_left (step cfg) bs' (reinit cfg (reach cfg bs))) = obs cfg (fold_left (step cfg) bs' (reach cfg bs)).
-Proof. intros CW F7 F23 CS bs bs' OK OK'. exact (restart_transparent cfg CW F7 F23 CS bs bs' OK OK'). Qed.
+Proof. intros CW F7 F23 F47 CS bs bs' OK OK'. exact (restart_transparent cfg CW F7 F23 F47 CS bs bs' OK OK'). Qed.
 
-Lemma restarts_transparent_full cfg : cfg_wf cfg -> fix_block_dirty cfg = true -> fix_gpv_drop cfg = true ->
+Lemma restarts_transparent_full cfg : cfg_wf cfg -> fix_block_dirty cfg = true -> fix_gpv_drop cfg = true -> fix_whitelist cfg = true ->
   0 < csize cfg -> forall es, blocks_ok cfg (gblocks es) ->
   sto (fold_left (gstep cfg) es (genesis cfg)) = sto (reach cfg (gblocks es))
   /\ obs cfg (fold_left (gstep cfg) es (genesis cfg)) = obs cfg (reach cfg (gblocks es)).
-Proof. intros CW F7 F23 CS es OK. exact (restarts_transparent cfg CW F7 F23 CS es OK). Qed.
+Proof. intros CW F7 F23 F47 CS es OK. exact (restarts_transparent cfg CW F7 F23 F47 CS es OK). Qed.
 
 Lemma cache_coherent_refuted_F7 :
   let cfg := w_cfg false true in
@@ -48,13 +48,22 @@ Proof.
   destruct f23_refuted as [E1 E2]. intros E. rewrite E1, E2 in E. discriminate.
 Qed.
 
+Lemma restart_refuted_F47 :
+  let cfg := w_cfg47 false in
+  cfg_wf cfg /\ blocks_ok cfg w_f47
+  /\ whitelisted_fee (reach cfg w_f47) 2 <> whitelisted_fee (reinit cfg (reach cfg w_f47)) 2.
+Proof.
+  split; [apply w_cfg47_wf|split; [apply w_f47_ok|]].
+  destruct f47_refuted as [E1 E2]. intros E. rewrite E1, E2 in E. discriminate.
+Qed.
+
 Lemma c01_example :
   let cfg := w_cfg true true in
-  cfg_wf cfg /\ fix_block_dirty cfg = true /\ fix_gpv_drop cfg = true /\ 0 < csize cfg /\ blocks_ok cfg w_f7
+  cfg_wf cfg /\ fix_block_dirty cfg = true /\ fix_gpv_drop cfg = true /\ fix_whitelist cfg = true /\ 0 < csize cfg /\ blocks_ok cfg w_f7
   /\ committee_sorted (reach cfg w_f7) = [1;2;3]%N
   /\ compute_next_validators cfg (reach cfg w_f7) = [0;1]%N
   /\ sto (step cfg (reach cfg w_f23) w_f23_next) = sto (step cfg (reinit cfg (reach cfg w_f23)) w_f23_next).
 Proof.
-  split; [apply w_cfg_wf|]. split; [reflexivity|]. split; [reflexivity|]. split; [reflexivity|].
+  split; [apply w_cfg_wf|]. split; [reflexivity|]. split; [reflexivity|]. split; [reflexivity|]. split; [reflexivity|].
   split; [apply w_f7_ok|]. split; [vm_compute; reflexivity|]. split; [exact (proj1 f7_repaired)|exact f23_repaired].
 Qed.
